@@ -158,12 +158,16 @@ var litPool = []lit{
 }
 
 func (g *G) BasicLit() *ast.BasicLit {
-	l := rapid.SampledFrom(litPool).Draw(g.t, "lit")
+	pool := litPool
+	if g.pick("lit-hostile", 3) == 0 {
+		pool = hostileLits
+	}
+	l := rapid.SampledFrom(pool).Draw(g.t, "lit")
 	return &ast.BasicLit{Kind: l.kind, Value: l.text}
 }
 
 func (g *G) stringLit() *ast.BasicLit {
-	return &ast.BasicLit{Kind: token.STRING, Value: rapid.SampledFrom([]string{`"fmt"`, `"os"`, `"a/b"`, "`json:\"x\"`", `"k:\"v\""`}).Draw(g.t, "strlit")}
+	return &ast.BasicLit{Kind: token.STRING, Value: rapid.SampledFrom(stringLitPool).Draw(g.t, "strlit")}
 }
 
 var binaryOps = []token.Token{
@@ -965,7 +969,7 @@ func (g *G) CommClause(d int) *ast.CommClause {
 // ---------------------------------------------------------------- declarations
 
 func (g *G) ImportSpec() *ast.ImportSpec {
-	s := &ast.ImportSpec{Path: g.stringLit()}
+	s := &ast.ImportSpec{Path: &ast.BasicLit{Kind: token.STRING, Value: rapid.SampledFrom(importPathPool).Draw(g.t, "import-path")}}
 	switch g.pick("import-name", 4) {
 	case 0:
 		s.Name = &ast.Ident{Name: "."}
